@@ -8,6 +8,7 @@ mod c16;
 mod c17;
 mod c18;
 mod c19;
+mod c20;
 mod coqfmt;
 mod model;
 mod ising;
@@ -38,7 +39,7 @@ pub fn write_shards(
         let path = format!("{}/{}.v", out, name);
         let mut f = std::io::BufWriter::new(std::fs::File::create(&path).unwrap());
         writeln!(f, "From Coq Require Import List QArith ZArith NArith Bool.").unwrap();
-        writeln!(f, "From QmcV Require Import Model.Prog Model.Sse Model.Ham Model.Diagonal Model.Nav Model.Cluster Model.Tempering Model.Classical Model.Pool Check.Common Check.Table Check.{}.", module).unwrap();
+        writeln!(f, "From QmcV Require Import Model.Prog Model.Sse Model.Ham Model.Diagonal Model.Nav Model.Cluster Model.Tempering Model.Classical Model.Pool Model.Autocorr Check.Common Check.Table Check.{}.", module).unwrap();
         writeln!(f, "Import ListNotations.").unwrap();
         writeln!(f, "Definition base : N := {}%N.", k * per_shard.max(1)).unwrap();
         writeln!(f, "Definition cases : list {}.case := [", module).unwrap();
@@ -101,6 +102,7 @@ fn main() {
         "c15" => c15::run(&args),
         "c19" => c19::run(&args),
         "c18" => c18::run(&args),
+        "c20" => c20::run(&args),
         other => {
             eprintln!("unknown command {}", other);
             std::process::exit(2);
